@@ -177,7 +177,7 @@ Definition chainsync_server := mk chainsync_server_table chainsync_spec Server
 
 Definition handshake_client := mk handshake_client_table handshake_spec Client
   [ MSend "send_propose" "Propose" "Confirm";
-    MRecv "recv_while_confirm" None [("Accept", "Done"); ("Refuse", "Done"); ("QueryReply", "")] ] true true.
+    MRecv "recv_while_confirm" None [("Accept", "Done"); ("Refuse", "Done"); ("QueryReply", "Done")] ] true true.
 Definition handshake_server := mk handshake_server_table handshake_spec Server
   [ MRecv "receive_proposed_versions" None [("Propose", "Confirm")];
     MSend "accept_version" "Accept" "Done";
